@@ -350,6 +350,16 @@ func (g *gen) genError(typs []types.Type) error {
 	return nil
 }
 
+// elemString returns the element type as it is written after chan:
+// chan <-chan T is a channel to send channels into, a channel of receive only channels is chan (<-chan T).
+func (g *gen) elemString(elemTyp types.Type) string {
+	s := g.TypeString(elemTyp)
+	if ch, isChan := elemTyp.(*types.Chan); isChan && ch.Dir() == types.RecvOnly {
+		return "(" + s + ")"
+	}
+	return s
+}
+
 func (g *gen) genChan(typs []types.Type) error {
 	p := g.printer
 	g.Generating(typs...)
@@ -362,7 +372,7 @@ func (g *gen) genChan(typs []types.Type) error {
 	if dir == types.RecvOnly {
 		dirStr = "<-"
 	}
-	typStr := g.TypeString(elemTyp)
+	typStr := g.elemString(elemTyp)
 	inStr := g.TypeString(typs[0].(*types.Chan).Elem())
 	p.P("")
 	p.P("// %s listens on all channels resulting from the input channel and sends all their results on the output channel.", name)
@@ -417,14 +427,14 @@ func (g *gen) genChanVariant(typs []types.Type) error {
 	dirstrs := make([]string, len(typs))
 	elemstrs := make([]string, len(typs))
 	pairs := make([]string, len(typs))
-	typStr := g.TypeString(elemTyps[0])
+	typStr := g.elemString(elemTyps[0])
 	csnil := make([]string, len(typs))
 	cs := make([]string, len(typs))
 	for i := range typs {
 		if dirs[i] == types.RecvOnly {
 			dirstrs[i] = "<-"
 		}
-		elemstrs[i] = g.TypeString(elemTyps[i])
+		elemstrs[i] = g.elemString(elemTyps[i])
 		cs[i] = "c" + strconv.Itoa(i)
 		pairs[i] = fmt.Sprintf("%s %schan %s", cs[i], dirstrs[i], elemstrs[i])
 		csnil[i] = fmt.Sprintf("%s != nil", cs[i])
@@ -473,7 +483,7 @@ func (g *gen) genSliceOfChan(typs []types.Type) error {
 	if err != nil {
 		return err
 	}
-	typStr := g.TypeString(elemTyp)
+	typStr := g.elemString(elemTyp)
 	dirStr := ""
 	if dir == types.RecvOnly {
 		dirStr = "<-"
@@ -529,7 +539,7 @@ func (g *gen) genSlice(typs []types.Type) error {
 	if err != nil {
 		return err
 	}
-	typStr := g.TypeString(elemTyp)
+	typStr := g.elemString(elemTyp)
 	p.P("")
 	p.P("// %s concatenates the list of lists into one list.", name)
 	p.P("func %s(listOfLists [][]%s) []%s {", name, typStr, typStr)
